@@ -4,6 +4,8 @@ package verifh
 
 import (
 	"bytes"
+	"encoding"
+	"encoding/json"
 	"fmt"
 	"net/url"
 	"reflect"
@@ -563,6 +565,66 @@ func checkC12(c c12Case) verdict {
 					return bad(true, labels, "step %d: after the caller wiped the key DecodeSecret(%q) had returned, ValidateTOTP rejects the text's own code", i, text)
 				}
 			}
+		case "StdInterfaces":
+			// Whatever standard decoding interfaces the library's types implement — now or later: encoding.TextUnmarshaler,
+			// encoding.BinaryUnmarshaler, json.Unmarshaler, or plain encoding/json on the exported fields — they take a byte
+			// slice of the caller's. The call leaves the slice as it was, and what it produced does not change when the caller
+			// re-uses its buffer afterwards (a value that kept a string or slice pointing into the argument would).
+			texts := []string{"OCRA-1:HOTP-SHA1-6:QN08", "OCRA-1:HOTP-SHA256-8:C-QN08-PSHA1-S064-T1M", st.Text, "SHA256", "SHA512", "8", "6", "QN08", "1"}
+			for _, mk := range []func() any{func() any { return new(otp.RawSuite) }, func() any { return new(otp.SuiteConfig) }, func() any { return new(otp.Param) }, func() any { return new(otp.URLParam) },
+				func() any { return new(otp.OCRAInput) }, func() any { return new(otp.Algorithm) }, func() any { return new(otp.Digits) }, func() any { return new(otp.ChallengeFormat) }, func() any { return new(otp.PasswordHashAlgorithm) }} {
+				for _, text := range texts {
+					for mode := 0; mode < 3; mode++ {
+						v := mk()
+						var buf []byte
+						var derr error
+						switch mode {
+						case 0:
+							tu, isTU := v.(encoding.TextUnmarshaler)
+							if !isTU {
+								continue
+							}
+							buf = []byte(text)
+							derr = tu.UnmarshalText(buf)
+						case 1:
+							bu, isBU := v.(encoding.BinaryUnmarshaler)
+							if !isBU {
+								continue
+							}
+							buf = []byte(text)
+							derr = bu.UnmarshalBinary(buf)
+						default:
+							buf, _ = json.Marshal(text)
+							if _, isJU := v.(json.Unmarshaler); !isJU {
+								if _, isTU := v.(encoding.TextUnmarshaler); !isTU {
+									// a struct without a decoder of its own: encoding/json fills the exported fields
+									buf, _ = json.Marshal(map[string]any{"Raw": text, "raw": text, "Issuer": text, "Secret": text, "Challenge": []byte(text), "hash": 1, "digits": 8})
+								}
+							}
+							derr = json.Unmarshal(buf, v)
+						}
+						if derr != nil {
+							continue
+						}
+						was := append([]byte(nil), buf...)
+						render := func() string {
+							out := fmt.Sprintf("%#v", reflect.ValueOf(v).Elem().Interface())
+							if sg, isS := reflect.ValueOf(v).Elem().Interface().(fmt.Stringer); isS {
+								out += "|" + sg.String()
+							}
+							return out
+						}
+						r1 := render()
+						for k := range buf {
+							buf[k] = 'x' - byte(k%3)
+						}
+						if r2 := render(); r2 != r1 {
+							return bad(true, labels, "step %d: a %T decoded from the caller's buffer %q changed when the caller re-used the buffer: %s -> %s", i, v, was, r1, r2)
+						}
+						labels = append(labels, fmt.Sprintf("std-decoder=%T/%d", v, mode))
+					}
+				}
+			}
 		case "padBytes":
 			// direct look at the padding helper through the hook
 			for k, w := range pads {
@@ -623,7 +685,7 @@ var c12Main = newPart("C12", "histories",
 	checkC12)
 
 var c12Ops = []string{"GenerateOCRA", "GenerateOCRA", "GenerateOCRA", "ValidateOCRA", "OCRAInput.Validate", "GenerateHOTP", "ValidateHOTP", "GenerateTOTP", "GenerateTOTP", "ValidateTOTP", "ValidateTOTP",
-	"GenerateTOTPURL", "GenerateHOTPURL", "ParseOTPAuthURL", "NewSuite", "Registry", "Helpers", "padBytes", "padBytes", "CustomDefaults"}
+	"GenerateTOTPURL", "GenerateHOTPURL", "ParseOTPAuthURL", "NewSuite", "Registry", "Helpers", "padBytes", "padBytes", "CustomDefaults", "StdInterfaces"}
 
 func drawSlot(t *rapid.T, label string, want int) slot {
 	s := slot{Layout: rapid.IntRange(0, 2).Draw(t, label+"Layout"), Fill: rapid.Byte().Draw(t, label+"Fill")}
